@@ -201,4 +201,23 @@ def run(ck):
     ck.ob('PROV-sigma', sb.loc(runm), 'contacts = self.contact_selector(molecule)' in wiring and 'self.compute_go_interaction(contacts)' in wiring and
           'self.res_graph = make_residue_graph(molecule)' in wiring, 'the pair potentials are computed from exactly the selected contacts of this molecule',
           key='PROV-sigma|wiring')
+    # residue lookup: per-instance table over all residues, keyed (chain, input resid)
+    lk = ck.need(method(cg, '_chain_id_to_resnode'), 'ComputeStructuralGoBias._chain_id_to_resnode vanished')
+    ck.analysed(sb, lk)
+    lp = [n for n in lk.body if isinstance(n, ast.For) and u(n.iter) == 'self.res_graph.nodes']
+    ok = len(lp) == 1
+    if ok:
+        st = [s_ for s_ in lp[0].body if isinstance(s_, ast.Assign) and isinstance(s_.targets[0], ast.Subscript) and 'chain_id_to_resnode' in u(s_.targets[0])]
+        ok = len(st) == 1 and unconditional_in(lk, lp[0].body, st[0]) and not any(isinstance(n, (ast.Continue, ast.Break)) for n in ast.walk(lp[0]))
+        if ok:
+            key = u(flow.subst(st[0].targets[0].slice, {k: v for s2, c2, e2 in stmts_with_env(lk, lambda s_: s_ is st[0], stmts=lp[0].body) for k, v in e2.items()}))
+            ok = key == "(self.res_graph.nodes[{0}].get('chain', None), self.res_graph.nodes[{0}].get('_old_resid'))".format(u(lp[0].target)) and u(st[0].value) == u(lp[0].target)
+    ck.ob('PROV-lookup', sb.loc(lk), ok, 'every residue of the molecule is entered in the lookup table under (chain, input residue number) -- none skipped (residue number 0 included)',
+          key='PROV-lookup|table')
+    cls_level = [s_ for s_ in cg.body if isinstance(s_, ast.Assign) and isinstance(s_.value, (ast.Dict, ast.List, ast.Set))]
+    init_tbl = [s_ for s_ in walk_local(init_m) if isinstance(s_, ast.Assign) and 'chain_id_to_resnode' in u(s_.targets[0]) and u(s_.value) == '{}']
+    ck.ob('PROV-lookup', sb.loc(cg), not cls_level and len(init_tbl) == 1, 'the table is created per processor instance (no class-level mutable state shared between runs)',
+          key='PROV-lookup|per-instance')
+    from . import shared
+    shared.truthy_zero(ck, [SB, VS, 'vermouth/rcsu/go_utils.py', 'vermouth/rcsu/go_pipeline.py'])
     ck.assume('residue lookup by (chain, input resid) and float equality of the two listed directions are not decided')
